@@ -210,17 +210,34 @@ Definition cancel_raw (snd id : Z) (s : state) : state * outcome :=
 (** * Batches: batch.go *)
 Definition of_tok (tok : Z) (t : transfer) : bool := t_tok t =? tok.
 
+(** pickUnbatchedTxs walks the token's pool entries in REVERSE key order, the key being
+    contract ++ amount (32 bytes, big endian) ++ id: largest amount first, among equal amounts the
+    youngest id first, and stops after [G.batch_size] (OutgoingTxBatchSize = 100) entries; the rest
+    stays in the pool. *)
+Definition picked_before (a b : transfer) : bool :=
+  (t_amount b <? t_amount a) || ((t_amount a =? t_amount b) && (t_id b <? t_id a)).
+Fixpoint insert_tx (t : transfer) (l : list transfer) : list transfer :=
+  match l with
+  | [] => [t]
+  | x :: r => if picked_before x t then x :: insert_tx t r else t :: x :: r
+  end.
+Definition pick_order (l : list transfer) : list transfer :=
+  if G.batch_picks_largest_amount_then_id_first then fold_right insert_tx [] l else l.
+Definition batch_cap : nat := Z.to_nat G.batch_size.
+
 Definition batch_raw (tok : Z) (s : state) : state * outcome :=
   if negb (mapped s tok) then (s, Err EDenom)
-  else match filter (of_tok tok) (pool s) with
-  | [] => (s, Ok)
-  | sel =>
+  else
+    let cands := pick_order (filter (of_tok tok) (pool s)) in
+    match firstn batch_cap cands with
+    | [] => (s, Ok)
+    | sel =>
       ({| bal := bal s; escrow := escrow s; burned := burned s;
-          pool := filter (fun t => negb (of_tok tok t)) (pool s);
+          pool := skipn batch_cap cands ++ filter (fun t => negb (of_tok tok t)) (pool s);
           batches := {| b_nonce := last_batch s + 1; b_tok := tok; b_txs := sel |} :: batches s;
           last_id := last_id s; last_batch := last_batch s + 1; mapped := mapped s;
           taxes := taxes s; limits := limits s; usages := usages s |}, Ok)
-  end.
+    end.
 
 Definition is_batch (tok nonce : Z) (b : batch) : bool := (b_nonce b =? nonce) && (b_tok b =? tok).
 Definition find_batch (tok nonce : Z) (l : list batch) : option batch := find (is_batch tok nonce) l.
@@ -267,6 +284,18 @@ Definition settax_raw (tok : Z) (ok : bool) (num den : Z) (ex : list Z) (s : sta
 Definition setlimit_raw (tok limit : Z) (p : period) (ex : list Z) (s : state) : state * outcome :=
   (set_limit s (G.gov_limit_token tok) {| lc_limit := limit; lc_period := p; lc_exempt := ex |}, Ok).
 
+(** * Genesis: ExportGenesis, then InitGenesis on an empty store (chain restart from an exported
+    genesis file).  Pool, batches, both id counters, the ERC20 mappings and the tax and limit records
+    are carried (genesis.go, read from the source: [G.genesis_carries_settings]); the usage tallies
+    are carried only if [G.genesis_carries_usage] — on the current tree they are not, every window
+    starts afresh after the restart.  The bank ledger is the bank module's genesis (trusted). *)
+Definition genesis_raw (s : state) : state * outcome :=
+  ({| bal := bal s; escrow := escrow s; burned := burned s; pool := pool s; batches := batches s;
+      last_id := last_id s; last_batch := last_batch s; mapped := mapped s;
+      taxes := (if G.genesis_carries_settings then taxes s else fun _ => None);
+      limits := (if G.genesis_carries_settings then limits s else fun _ => None);
+      usages := (if G.genesis_carries_usage then usages s else fun _ => None) |}, Ok).
+
 (** * Operations and delivery *)
 Inductive op :=
 | Send (h snd tok a : Z) (mal : bool)
@@ -275,7 +304,8 @@ Inductive op :=
 | Execute (tok nonce : Z)
 | Unbatch (tok nonce : Z)
 | SetTax (tok : Z) (ok : bool) (num den : Z) (ex : list Z)
-| SetLimit (tok limit : Z) (p : period) (ex : list Z).
+| SetLimit (tok limit : Z) (p : period) (ex : list Z)
+| Genesis.
 
 (** What the handler does on the context it is given (state left behind also when it fails). *)
 Definition raw (o : op) (s : state) : state * outcome :=
@@ -287,6 +317,7 @@ Definition raw (o : op) (s : state) : state * outcome :=
   | Unbatch tok nonce => unbatch_raw tok nonce s
   | SetTax tok ok num den ex => settax_raw tok ok num den ex s
   | SetLimit tok limit p ex => setlimit_raw tok limit p ex s
+  | Genesis => genesis_raw s
   end.
 
 (** Inside a transaction (baseapp runMsgs on a cache context): writes are committed only when the
